@@ -27,6 +27,9 @@
 //!   q <fab> <p|c|g|n> <aux> <id> <cats|-> <ep|*> <cl|*> <leaf|*> <opbits> <perms|none> <dts|->
 //!                                                    => allow|deny <match_accessor bits|-> <match_access_desc bits|->
 //!   ep <fab> <p|c|g|n> <id> <endpoint>               => yes|no
+#[path = "c05_ops.rs"]
+pub(crate) mod c05_ops;
+
 use crate::proto::{parse_cases, Case, Out};
 use crate::rng::Rng;
 use crate::Args;
@@ -64,6 +67,7 @@ pub(crate) fn opt_num<T: core::str::FromStr>(s: &str) -> Option<T> {
 }
 
 pub(crate) fn reset(matter: &Matter<'_>) {
+    c05_ops::kv_reset();
     matter.with_state(|state| {
         let idxs: Vec<NonZeroU8> = state.fabrics.iter().map(|f| f.fab_idx()).collect();
         for i in idxs {
@@ -374,7 +378,7 @@ pub(crate) fn run_op(matter: &Matter<'_>, op: &str, out: &mut Out) -> (String, O
                 Err(_) => ("panic".into(), None),
             }
         }
-        _ => ("badop".into(), None),
+        other => (c05_ops::run_op(matter, other, out).unwrap_or_else(|| "badop".into()), None),
     }
 }
 
@@ -412,23 +416,23 @@ const CLUSTERS: [u32; 4] = [6, 8, 0x1F, 0x3E];
 const DEV_TYPES: [u32; 3] = [0x16, 0x100, 0x101];
 
 #[derive(Clone)]
-struct GEntry {
-    mode: char,
-    subjects: Option<Vec<u64>>,
-    targets: Option<Vec<(Option<u16>, Option<u32>, Option<u32>)>>,
+pub(crate) struct GEntry {
+    pub mode: char,
+    pub subjects: Option<Vec<u64>>,
+    pub targets: Option<Vec<(Option<u16>, Option<u32>, Option<u32>)>>,
 }
 
-struct GFab {
-    idx: u8,
-    entries: Vec<GEntry>,
-    groups: Vec<(u64, Vec<u16>)>,
+pub(crate) struct GFab {
+    pub idx: u8,
+    pub entries: Vec<GEntry>,
+    pub groups: Vec<(u64, Vec<u16>)>,
 }
 
 fn cat_subject(id: u32, ver: u32) -> u64 {
     NOC_CAT_SUBJECT_PREFIX | (((id as u64) << 16) | ver as u64)
 }
 
-fn declared_perms() -> Vec<u16> {
+pub(crate) fn declared_perms() -> Vec<u16> {
     vec![
         Access::RV.bits(),
         Access::RF.bits(),
@@ -646,12 +650,19 @@ fn gen_case(r: &mut Rng, out: &mut Out, uniform: bool, nq: usize) -> Vec<String>
             ops.push("reload".into());
         }
     }
-    // queries
+    // the whole table as the real code holds it, against the model's
+    ops.push("dump".into());
+    gen_queries(r, out, &fabs, &missing, uniform, nq, &mut ops);
+    ops
+}
+
+/// `nq` queries against the fabrics `fabs` (the generator's view of the table)
+pub(crate) fn gen_queries(r: &mut Rng, out: &mut Out, fabs: &[GFab], missing: &[u8], uniform: bool, nq: usize, ops: &mut Vec<String>) {
     let perms_pool = declared_perms();
     for _ in 0..nq {
         if r.chance(1, 8) {
             // group reachability
-            let fab = if !fabs.is_empty() && r.chance(4, 5) { fabs[r.below(fabs.len() as u64) as usize].idx } else if r.chance(1, 2) { 0 } else { *r.pick(&missing) };
+            let fab = if !fabs.is_empty() && r.chance(4, 5) { fabs[r.below(fabs.len() as u64) as usize].idx } else if r.chance(1, 2) { 0 } else { *r.pick(missing) };
             let mode = *r.pick(&["g", "g", "g", "c", "p", "n"]);
             let mut id = *r.pick(&GROUP_IDS);
             if r.chance(1, 8) {
@@ -671,7 +682,7 @@ fn gen_case(r: &mut Rng, out: &mut Out, uniform: bool, nq: usize) -> Vec<String>
             (0, None)
         } else {
             out.stat("q_fabric_missing", 1);
-            (*r.pick(&missing), None)
+            (*r.pick(missing), None)
         };
         let aux = if r.chance(1, 5) { 1 } else { 0 };
         // directed: aim at one entry of the fabric (or of another fabric, to test separation)
@@ -753,7 +764,7 @@ fn gen_case(r: &mut Rng, out: &mut Out, uniform: bool, nq: usize) -> Vec<String>
                     mode = "g";
                     cats.clear();
                     id = g.0;
-                    if r.chance(4, 5) { ep = Some(*r.pick(&g.1)); }
+                    if r.chance(4, 5) && !g.1.is_empty() { ep = Some(*r.pick(&g.1)); }
                     if r.chance(4, 5) { aux = 1; }
                 }
             }
@@ -795,7 +806,6 @@ fn gen_case(r: &mut Rng, out: &mut Out, uniform: bool, nq: usize) -> Vec<String>
             if dts.is_empty() { "-".to_string() } else { dts.iter().map(|c| c.to_string()).collect::<Vec<_>>().join(",") },
         ));
     }
-    ops
 }
 
 fn caps_line() -> String {
@@ -833,7 +843,7 @@ pub fn gen(a: &Args) -> String {
         out.buf.push_str("#rule one case = a node configuration (1..5 fabrics with removed/missing indices, 0..4 ACL entries each: privilege x auth mode x null/empty/non-empty subjects x null/empty/non-empty targets of all 8 endpoint/cluster/device-type shapes, group tables) built through the real API, then queries (accessor fabric in {0, existing, missing}, mode PASE/CASE/Group/none, up to 4 tags with version above/equal/below an entry's, operation, declared and random access bits) mostly aimed at one entry with single-aspect deviations; 1 case in 5 is uniform over raw bit patterns; non-trivial = the non-PASE queries of the case produced both allow and deny\n");
         let n_cases: u64 = if thorough { 120000 } else { 12000 };
         // case 0: the capacities the model assumes
-        run_case(matter, &mut out, &Case { id: 0, kind: "acl caps".into(), ops: vec![caps_line()] });
+        run_case(matter, &mut out, &Case { id: 0, kind: "acl caps".into(), ops: vec![caps_line(), c05_ops::enums_line()] });
         for id in 1..=n_cases {
             let mut cr = r.fork();
             let uniform = cr.chance(1, 5);
@@ -841,6 +851,15 @@ pub fn gen(a: &Args) -> String {
             out.stat(if uniform { "kind_uniform" } else { "kind_directed" }, 1);
             let ops = gen_case(&mut cr, &mut out, uniform, nq);
             run_case(matter, &mut out, &Case { id, kind: if uniform { "acl uniform".into() } else { "acl directed".into() }, ops });
+        }
+        // histories of the production mutators (ACL cluster handler, init / update / remove, group
+        // table, persist -> load round trips, fail-safe roll-back), every answer compared and the
+        // table dumped after every operation
+        let n_hist: u64 = if thorough { 40000 } else { 4000 };
+        for id in n_cases + 1..=n_cases + n_hist {
+            let mut cr = r.fork();
+            out.stat("kind_history", 1);
+            c05_ops::gen_hist_case(matter, &mut cr, &mut out, id, thorough);
         }
         out.finish()
     })
